@@ -19,13 +19,43 @@ class ForAll:
     instantiated at every index at which `over` is read (explicit instantiation, no quantifiers
     reach the solver)."""
 
-    def __init__(self, fn, over, trigger=True, mod=None):
-        self.fn = fn
+    def __init__(self, fn, over=None, trigger=True, mod=None, n=None, cases=None, guard=None):
+        self.body = fn
+        self.guard = guard  # forall k. guard(k) => fn(k); the body is evaluated with guard(k) in the path condition
+        self.fn = self._full
+        self.cases = cases  # fn(k) -> list of conditions: the goal is proved under each (plus their exhaustiveness)
         self.over = over
+        self.n = n  # upper bound of the interesting indices (used by concrete evaluation when `over` is None)
+        if over is None:
+            trigger = False
         self.mod = mod  # prove separately for each residue class k = mod*q + r (keeps bit-position terms concrete)
         # trigger=True: the quantified variable is the element index of `over`, so the fact is instantiated
         # wherever `over` is read; trigger=False (e.g. bit indices): only goal-directed instantiation
         self.trigger = trigger
+
+
+def _forall_full(self, k):
+    from . import values as _V
+
+    if self.guard is None:
+        return self.body(k)
+    g = self.guard(k)
+    eng = _V.ENGINE
+    if eng is not None and isinstance(g, _V.SBool):
+        mark = len(eng.pc)
+        eng.pc.append(g.t)
+        try:
+            b = self.body(k)
+        finally:
+            extra = eng.pc[mark + 1:]
+            del eng.pc[mark:]
+        # facts instantiated while evaluating the body (byte ranges etc.) hold unconditionally
+        eng.pc.extend(extra)
+        return _V.Implies(g, b)
+    return _V.Implies(g, self.body(k)) if g is not False else True
+
+
+ForAll._full = _forall_full
 
 
 class RaiseSpec:
@@ -93,6 +123,9 @@ class HeapSnap:
     def has(self, ref, name):
         return name in self.heap[ref.id]
 
+    def raw(self, ref, name):
+        return self.heap[ref.id][name]
+
     def f(self, ref, name):
         """field value; list / bytearray cells are dereferenced to their content"""
         v = self.heap[ref.id][name]
@@ -132,6 +165,12 @@ class HeapSnap:
 
     def dict_items(self, ref):
         return self.heap[ref.id]["items"]
+
+    def rl(self, ref):
+        """view of a list-of-records cell (or of an object field holding one)"""
+        from .reclist import RecView
+
+        return RecView(self.heap[ref.id])
 
 
 class Ctx(HeapSnap):
@@ -195,6 +234,11 @@ class Ctx(HeapSnap):
     def opq(self, name):
         return self.eng.fresh_opq(name)
 
+    def reclist(self, name, schema):
+        from .reclist import new_reclist
+
+        return new_reclist(self.eng, name, schema)
+
     def instream(self, name="file", pos0=None):
         """input stream with arbitrary content and arbitrary position 0 <= pos <= len(data)"""
         data = self.eng.fresh_seq(name + ".data", "byte", "bytes")
@@ -226,6 +270,44 @@ class Ctx(HeapSnap):
     def inst(self, k):
         """instantiate every recorded quantified fact at index term k (proof hint; adds only true facts)"""
         self.eng.instantiate_all(k)
+
+    def appended(self, old, file):
+        """bytes appended to output stream `file` since the state `old`"""
+        cur, prev = self.out(file), old.out(file)
+        r = V.strip_prefix(cur, prev)
+        if r is not None:
+            return r
+        return V.slice_(cur, V.L(prev), None)
+
+    def ghost_segments(self, file, names, concrete=None, optional=False):
+        """the appended bytes as a sequence of named segments.
+        prove mode : the segments this execution appended (one per write / callee / summarised loop), from the trace;
+        assume mode: fresh sequences (existentially quantified results of the callee);
+        (concrete mode: obtained by parsing, see ConcreteCtx)."""
+        eng = self.eng
+        if eng.ctx_mode == "assume":
+            key = ("segs", file.id, tuple(names))
+            if key not in eng._ghost_cache:
+                eng._ghost_cache[key] = [eng.fresh_seq("seg_" + n, "byte", "bytes") for n in names]
+            return eng._ghost_cache[key]
+        segs = [sg for _, sg in eng.segments.get(file.id, [])]
+        if not segs and optional:
+            return [b""] * len(names)
+        if len(segs) != len(names):
+            raise EngineError("anchor lost: %s appends %d segments to the stream, the contract names %d (%s)" % (eng.contract.target, len(segs), len(names), ",".join(names)))
+        return [V.to_seq(sg, "byte", "bytes") if not isinstance(sg, SSeq) else sg for sg in segs]
+
+    def seq_of(self, name, fn, n, elem="bool"):
+        """the sequence [fn(0), ..., fn(n-1)] as a spec-level value (fresh sequence + element facts)"""
+        key = ("seq_of", name)
+        cache = self.eng.ghost.setdefault("seq_of", {})
+        if name in cache:
+            return cache[name]
+        s = self.eng.fresh_seq(name, elem, "list")
+        self.eng.assume(V.L(s) == V.max_(n, 0))
+        self.eng.register_forall(ForAll(lambda k: V.Implies(V.And(k >= 0, k < n), V.eq(V.nth(s, k), fn(k))), over=s))
+        cache[name] = s
+        return s
 
     def local(self, name):
         return self.view(self.eng.frames[0].env[name])
@@ -326,7 +408,8 @@ class Contract:
         if fr is None:
             raise EngineError("anchor lost: function %s not found" % self.target)
         a = fr.node.args
-        return [x.arg for x in a.posonlyargs + a.args], fr
+        # the receiver is called `self_` in contract clauses (`self` is the contract object itself)
+        return [("self_" if x.arg == "self" else x.arg) for x in a.posonlyargs + a.args], fr
 
     def call_args(self, bound):
         names, fr = self.param_names()
@@ -401,6 +484,16 @@ class Contract:
         for loc in self.modifies(ctx, **bound):
             ref, field = loc
             cur = eng.heap[ref.id][field]
+            if eng.heap[ref.id]["kind"] == "reclist" and field == "cols":
+                from .reclist import havoc_cols
+
+                eng.set_field(ref, "cols", havoc_cols(eng, eng.heap[ref.id], eng.heap[ref.id].get("label", "recs") + "_post"))
+                continue
+            if eng.heap[ref.id]["kind"] == "ostream" and field == "out":
+                # append-only: the callee can only have extended the stream
+                ext = eng.fresh_seq("%s.ext" % eng.heap[ref.id].get("label", "out"), "byte", "bytes")
+                eng.set_field(ref, "out", V.concat(cur, ext))
+                continue
             if isinstance(cur, Ref):
                 cell = eng.heap[cur.id]
                 if cell["kind"] in ("list", "bytearray"):
@@ -408,7 +501,7 @@ class Contract:
                     eng.set_field(cur, "items", eng.fresh_like(items if not isinstance(items, tuple) else tuple(items), "%s.%s" % (eng.heap[ref.id].get("label", "o"), field)))
                     continue
                 raise EngineError("modifies of reference field %s" % field)
-            eng.set_field(ref, field, eng.fresh_like(cur, "%s.%s'" % (eng.heap[ref.id].get("label", "o%d" % ref.id), field)))
+            eng.set_field(ref, field, eng.fresh_like(cur, "%s.%s_post" % (eng.heap[ref.id].get("label", "o%d" % ref.id), field)))
 
     def loop_spec_for(self, key, st):
         spec = self.loops().get(key.replace("py7zr.", "", 1))
